@@ -5,6 +5,7 @@ import gen
 import lib
 import progen
 import compilers
+import core3gen
 
 LEVEL = "proof"
 
@@ -32,6 +33,10 @@ def run(chk):
                                    features=compilers.CORE2_INLINES, label="core2-inlines")
     compilers.core2_correspondence(chk, rng, 100 if quick else 1500, dialects=("cl21", "strict21"),
                                    features=compilers.CORE2_DENSE, label="core2-lets")
+    # Layer B3: core2 + constants evaluated at compile time (defconstant literal, defconst closed expression
+    # over functions, inline functions, lets and other constants in any order): model bytes == real compiler bytes
+    core3gen.core3_correspondence(chk, rng, 90 if quick else 2000, dialects=("cl21", "strict21"), label="core3-constants")
+    core3gen.defconst_let_probe(chk, rng)
     compilers.quoted_name_probe(chk, rng)
     n = 80 if quick else 3000
     for d in progen.MODERN:
@@ -39,9 +44,14 @@ def run(chk):
         compilers.differential(chk, "C01", progs, entries=["text:O0", "text:O1"], label=d)
     chk.cov["modelled_not_verified"] = [
         "outside the byte-tied, kernel-checked compiler models (Layer B `Core.compileCore`: functions; Layer B2 "
-        "`Core2.compileCore2`: + inline functions with destructuring parameters + let/let* with shadowing; dialects cl21 and "
-        "strict-cl21, non-optimising) the compiler pipeline (assign, lambda, &rest calls, constants, macros, cl22+ code "
+        "`Core2.compileCore2`: + inline functions with destructuring parameters + let/let* with shadowing; Layer B3 "
+        "`Core3.compileCore3`: + defconstant literals and defconst closed expressions evaluated at compile time; dialects cl21 and "
+        "strict-cl21, non-optimising) the compiler pipeline (assign, lambda, &rest calls, macros, cl22+ code "
         "generators, optimisers) is not covered by a theorem; it is compared with the Lean source semantics on generated programs",
+        "Layer B3 models the compile-time value of a constant as the consensus evaluator's result on the compiled body; the real "
+        "compiler uses its partial evaluator (evaluate.rs): equality of the two is checked on every generated program through the "
+        "emitted bytes, not proved; programs whose constants the real evaluator cannot reduce are rejected by the compiler (counted "
+        "as impl-rejects-constant-not-reduced), `defconstant` with a non-literal body (quoted unevaluated by the compiler) is not read",
         "user-written defmacro bodies other than qq templates, embed/include files, nested mod: not generated here",
     ]
     chk.assumptions.append("Lang.evalSrc (lean/ChialispModel/Lang/Sem.lean) is the statement of the language's call-by-value meaning")
